@@ -187,6 +187,7 @@ pub fn gen_op(rng: &mut Rng, m: &Mix) -> Op {
         10 => Op::AddRef { kind: rng.range(1, 3) as u8, referent: rr(rng, g), root: rr(rng, g) },
         11 => Op::GetReferent { src: rr(rng, g), dst: rr(rng, g) },
         12 => Op::AddFinalizer { root: rr(rng, g) },
+        13 if rng.chance(1, 4) => Op::FinalizersFor { root: rr(rng, g) },
         13 => Op::PopFinalized { dst: if rng.chance(1, 3) { Some(rr(rng, g)) } else { None } },
         14 => Op::AddEphemeron { key: rr(rng, g), value: rr(rng, g) },
         15 => Op::ForkCycle,
@@ -860,6 +861,8 @@ fn gen_comp_spec(seed: u64, focus: &str, tier: &str) -> RunSpec {
         site_mask: site::CLASS_LOCK | site::CLASS_BINDING | site::CLASS_SPIN | site::CLASS_META_RAW | site::CLASS_POOL,
         max_run: *sr.pick(&[50u64, 200, 1000]),
         meta_every: 1,
+        race_ppm: 0,
+        race_wait: 0,
         explicit: None,
     };
     RunSpec {
@@ -994,8 +997,26 @@ pub fn gen_spec(seed: u64, focus: &str, tier: &str) -> RunSpec {
         site_mask: mask,
         max_run: *sr.pick(&[100u64, 500, 2000]),
         meta_every,
+        race_ppm: 0,
+        race_wait: 0,
         explicit: None,
     };
+    // Race-directed runs (drawn last, so that everything above is unchanged for a given seed):
+    // address-carrying sites, the sites inside non-atomic read-modify-writes, and postponement of
+    // a thread in front of an address until another thread arrives there.
+    let mut sched = sched;
+    let race_focus = matches!(focus, "C01" | "C04" | "C05" | "C12" | "C17" | "C18" | "C34" | "C36" | "C37");
+    if (race_focus && sr.chance(2, 5)) || (!race_focus && !liveness && sr.chance(1, 12)) {
+        sched.site_mask |= site::CLASS_RACE | site::CLASS_META_OBJ | site::CLASS_META_RAW;
+        sched.race_ppm = *sr.pick(&[300u32, 3_000, 30_000]);
+        sched.race_wait = *sr.pick(&[200u32, 2_000, 20_000]);
+        if sched.meta_every < 17 {
+            sched.meta_every = 17;
+        }
+        if focus == "C18" {
+            cfg.root_batch = 1;
+        }
+    }
     // Combinations with a recorded known finding (known_findings.jsonl) are only generated in a
     // small share of runs ("probe runs"), so that they stay demonstrated without drowning
     // everything else.
